@@ -1,6 +1,10 @@
 package main
 
 import (
+	"path/filepath"
+
+	"golang.org/x/tools/go/ssa"
+
 	"flag"
 	"fmt"
 	"os"
@@ -9,6 +13,8 @@ import (
 	"strings"
 	"time"
 )
+
+var extraCmds = map[string]func(args []string){}
 
 func main() {
 	if len(os.Args) < 2 {
@@ -30,6 +36,10 @@ func main() {
 		cleanupScratch()
 		os.Exit(code)
 	default:
+		if f, ok := extraCmds[os.Args[1]]; ok {
+			f(os.Args[2:])
+			return
+		}
 		fmt.Fprintln(os.Stderr, "unknown command", os.Args[1])
 		os.Exit(2)
 	}
@@ -78,7 +88,7 @@ func cmdFn(args []string) {
 	fmt.Printf("loaded in %.1fs, %d contracts\n", P.loadSeconds, len(P.contracts))
 	var keys []string
 	for k, c := range P.contracts {
-		if strings.Contains(k, *key) && !c.Trusted {
+		if strings.Contains(k, *key) && !c.Trusted && !(strings.Contains(k, "$") && len(c.Requires)+len(c.Ensures) == 0 && !c.HasModifies) {
 			keys = append(keys, k)
 		}
 	}
@@ -151,5 +161,25 @@ func cmdList(args []string) {
 			t = " (trusted)"
 		}
 		fmt.Printf("%s%s props=%v\n", k, t, c.Props)
+	}
+}
+
+func init() {
+	extraCmds["anon"] = func(args []string) {
+		P := loadRepo("/repo", nil)
+		fn := P.findFunc(args[0])
+		if fn == nil {
+			fmt.Println("not found")
+			return
+		}
+		var walk func(f *ssa.Function, ind string)
+		walk = func(f *ssa.Function, ind string) {
+			for i, a := range f.AnonFuncs {
+				pos := P.prog.Fset.Position(a.Pos())
+				fmt.Printf("%s$%d  %s:%d  params=%d free=%d blocks=%d\n", ind, i+1, filepath.Base(pos.Filename), pos.Line, len(a.Params), len(a.FreeVars), len(a.Blocks))
+				walk(a, ind+fmt.Sprintf("$%d", i+1))
+			}
+		}
+		walk(fn, "")
 	}
 }
